@@ -106,11 +106,11 @@ fn loom_one(spec: &Value) -> Value {
 }
 
 fn case_to(c: &Case) -> Value {
-    json!({"body": BODIES.iter().position(|b| *b == c.body).unwrap(), "pt": PTS.iter().position(|p| *p == c.pt).unwrap(), "be": c.be, "dw": c.dw, "dh": c.dh,
+    json!({"body": BODIES.iter().position(|b| *b == c.body).unwrap(), "pt": PTS_EXT.iter().position(|p| *p == c.pt).unwrap(), "be": c.be, "dw": c.dw, "dh": c.dh,
            "body_name": format!("{:?}", c.body), "pt_name": format!("{:?}", c.pt), "src": format!("{:?}", src_size(c))})
 }
 fn case_from(v: &Value) -> Case {
-    Case { body: BODIES[v["body"].as_u64().unwrap() as usize], pt: PTS[v["pt"].as_u64().unwrap() as usize], be: v["be"].as_u64().unwrap() as usize, dw: v["dw"].as_u64().unwrap() as u32, dh: v["dh"].as_u64().unwrap() as u32 }
+    Case { body: BODIES[v["body"].as_u64().unwrap() as usize], pt: PTS_EXT[v["pt"].as_u64().unwrap() as usize], be: v["be"].as_u64().unwrap() as usize, dw: v["dw"].as_u64().unwrap() as u32, dh: v["dh"].as_u64().unwrap() as u32 }
 }
 
 fn loom_specs(thorough: bool) -> Vec<Value> {
@@ -570,7 +570,7 @@ fn main() {
         let mut cases: Vec<(Case, usize, usize)> = vec![];
         for &(dw, dh) in shapes.iter() {
             for &body in BODIES.iter() {
-                for (pi, &pt) in PTS.iter().enumerate() {
+                for (pi, &pt) in PTS_EXT.iter().enumerate() {
                     let c = Case { body, pt, be: if (dw + dh) as usize % 2 == pi % 2 { simd } else { 0 }, dw, dh };
                     if !applicable(&c) {
                         continue;
